@@ -312,6 +312,20 @@ func (*c04) Oracle(ci, oi any) []hx.Violation {
 		kind := strings.SplitN(m, ":", 2)[0]
 		add("modifies-"+kind, fmt.Sprintf("%s (%s) modified its input: %s", c.Kind, c.API, m))
 	}
+	// round 4: index boundaries observed through deep paths: an index 0..MaxIndex is allowed
+	// (nil padding below it), a negative one or one above MaxIndex is an error
+	if c.Kind == "parse" && len(c.Parse.ProbeWant) > 0 {
+		if (obs.Err != "") != c.Parse.WantErr {
+			add("set-index-bound", fmt.Sprintf("%s(%q): error=%v, the documented index range 0..MaxIndex says error=%v", c.Parse.Fn, c.Parse.S, obs.Err != "", c.Parse.WantErr))
+		} else if obs.Err == "" {
+			for i, w := range c.Parse.ProbeWant {
+				if i >= len(obs.Probed) || obs.Probed[i].Found != w.Found || (w.Found && !vtEqual(obs.Probed[i].Val, w.Val)) {
+					add("set-index-bound", fmt.Sprintf("%s(%q): path %s should be %#v (present=%v), observed %#v", c.Parse.Fn, c.Parse.S, orShowSteps(c.Parse.Probes[i]), w.Val, w.Found, obs.Probed))
+				}
+			}
+		}
+		return vs
+	}
 	if obs.Err != "" {
 		// a failing --set expression may have stored something under the keys it names, but
 		// it must leave every other top-level key of the destination alone
